@@ -219,7 +219,7 @@ def run(ck):
     vecs = t.vecs.get("VEC", [])
     ck.notes["bfs_vectors"] = len(vecs)
     # seeded part: random walks of the same Next with the wide menus and longer patterns
-    ts = vlib.run_tlc("ShParam", "ShParam.sim.cfg", simulate=40 if ck.tier == "quick" else 1500, depth=9,
+    ts = vlib.run_tlc("ShParam", "ShParam.sim.cfg", simulate=15 if ck.tier == "quick" else 1500, depth=9,
                       seed=ck.seed, timeout=1500)
     ck.add_tlc(ts)
     if not ts.ok:
